@@ -15,6 +15,7 @@ import Retro.Props.C15.GridSphere
 import Retro.Props.C15.GridTorus
 import Retro.Props.C15.GridCone
 import Retro.Props.C15.GridCapsule
+import Retro.Props.C15.Closed
 import Mathlib.Tactic.Ring
 import Mathlib.Tactic.LinearCombination
 import Mathlib.Algebra.Field.Basic
